@@ -11,11 +11,11 @@ import z3
 # a runaway quantifier instantiation must end as `unknown`, not as an out-of-memory kill of some other process
 z3.set_param("memory_max_size", 3000)
 
-Z3_TIMEOUT_MS = int(os.environ.get("PYVC_Z3_TIMEOUT_MS", "30000"))
+Z3_TIMEOUT_MS = int(os.environ.get("PYVC_Z3_TIMEOUT_MS", "60000"))
 MAX_HARD = int(os.environ.get("PYVC_MAX_HARD", "3"))
-INC_TIMEOUT_MS = int(os.environ.get("PYVC_INC_TIMEOUT_MS", "4000"))
-EMATCH_TIMEOUT_MS = int(os.environ.get("PYVC_EMATCH_TIMEOUT_MS", "10000"))
-CVC5_TIMEOUT_S = int(os.environ.get("PYVC_CVC5_TIMEOUT_S", "20"))
+INC_TIMEOUT_MS = int(os.environ.get("PYVC_INC_TIMEOUT_MS", "5000"))
+EMATCH_TIMEOUT_MS = int(os.environ.get("PYVC_EMATCH_TIMEOUT_MS", "15000"))
+CVC5_TIMEOUT_S = int(os.environ.get("PYVC_CVC5_TIMEOUT_S", "30"))
 CVC5 = os.environ.get("PYVC_CVC5", "/usr/bin/cvc5")
 
 
@@ -94,6 +94,10 @@ class PathSolver:
             if recheck_cvc5:
                 ob.pc = tuple(self.facts[:ob.nfacts])
                 discharge(ob, recheck_cvc5=True)
+            return ob
+        if self.hints.get(ob.name) == "witness":
+            # an obligation with a committed witness scenario (a known-false clause): the scenario decides, no escalation
+            ob.status, ob.backend, ob.time = "unknown", "z3:left-to-witness", time.time() - t0
             return ob
         if ob.name in self.hard or len(self.hard) >= MAX_HARD:
             # an earlier path instance of this obligation already resisted every back end (or many obligations of this
